@@ -443,7 +443,11 @@ def oracle(case):
             if name == 'setx':
                 apply_op(store, op); continue
             _, r = apply_op(store, op)
-        except Exception:
+        except Exception as ex:
+            # documented rejections (incompatible operands, k = 0, reactant not in the stoichiometry) are fine;
+            # anything else means the operation that must return a new reaction did not
+            if not isinstance(ex, (ValueError, ZeroDivisionError, RuntimeError)):
+                return f'{name}: raised {type(ex).__name__}: {ex}'
             # a raise must leave every operand untouched
             for k, x in enumerate(store):
                 if state(x) != before[k]: return f'{name}: raised and modified object {k}'
